@@ -100,3 +100,12 @@ func (n *Node) VerifUpdateRoute(revision uint64, leader1, leader2 uint64, owners
 func (n *Node) VerifLoseMessageEventStreamCache(maxSessions int) {
 	n.messageEventStreamCache = newMessageEventStreamCache(maxSessions)
 }
+
+// VerifSetMessageEventStreamCacheCapacity reconfigures maxSessions of the live stream cache
+// (production: 50000) so that admission at capacity, eviction and backpressure can be reached.
+func (n *Node) VerifSetMessageEventStreamCacheCapacity(maxSessions int) {
+	c := n.messageEventStreamCache
+	c.mu.Lock()
+	c.maxSessions = maxSessions
+	c.mu.Unlock()
+}
